@@ -54,6 +54,15 @@ def slot_rec(slot) -> dict:
             "targets": tkey(slot.targets), "dig": None, "phase": None, "pps": None, "pulse": None}
 
 
+_SCALAR = (int, float, str, bool, type(None))
+
+
+def _call_sig(c) -> tuple:
+    """Shape of a recorded call: name, number of positional arguments, keyword names and their scalar values
+    (the record is what build / switch_* / serialisation replay: a query must not edit it)."""
+    return (c.name, len(c.args), tuple(sorted((k, v if isinstance(v, _SCALAR) else type(v).__name__) for k, v in c.kwargs.items())))
+
+
 def snapshot(seq) -> dict:
     """Deep, comparable picture of everything a call may change."""
     chans = {}
@@ -83,6 +92,7 @@ def snapshot(seq) -> dict:
         "calls": tuple(c.name for c in seq._calls), "tobuild": tuple(c.name for c in seq._to_build_calls),
         "vars": tuple(sorted(seq._variables)),
         "qids": tuple(sorted(str(q) for q in seq._qids)),
+        "calls_sig": tuple(_call_sig(c) for c in seq._calls[1:]) + ("|",) + tuple(_call_sig(c) for c in seq._to_build_calls),
     }
     return {"chans": chans, "bref": bref, "flags": flags}
 
